@@ -291,6 +291,7 @@ package parquet
 //@   ensures[C08] err == nil && old(isRC(r)) ==> asRC(r).n == old(asRC(r).n) + (srcPos - old(srcPos))
 
 //@ func readLevels
+//@   verify[C04]
 //@   requires 1 <= width && width <= 4 && dyn(in) == typeid("*bytes.Buffer") && payload(in) != 0
 //@   requires[C18] vDefs
 //@   modifies obj(in), rfault
